@@ -4,7 +4,7 @@
  *
  *   launch <casefile> <outfile> [timeout_ms] [maxfail]
  *
- * After <maxfail> consecutive cases that did not exit with status 0 the remaining cases are not run
+ * After <maxfail> consecutive (or 3*<maxfail> in total) cases that did not exit with status 0 the remaining cases are not run
  * (reported with "status":"skipped"): a probe that hangs or crashes on every start would otherwise
  * cost one timeout per case.
  *
@@ -242,7 +242,7 @@ int main(int argc, char **argv) {
     FILE *cf = fopen(argv[1], "r");
     FILE *of = fopen(argv[2], "w");
     long timeout_ms = argc > 3 ? atol(argv[3]) : 5000;
-    long maxfail = argc > 4 ? atol(argv[4]) : 0, fails = 0;
+    long maxfail = argc > 4 ? atol(argv[4]) : 0, fails = 0, total_fails = 0;
     if (!cf || !of) { perror("open"); return 2; }
     static char line[1 << 16];
     struct kase c;
@@ -264,8 +264,8 @@ int main(int argc, char **argv) {
         else if (!strcmp(line, "end")) {
             c.argv[c.argc] = NULL;
             c.envp[c.envc] = NULL;
-            if (c.bin && maxfail && fails >= maxfail) fprintf(of, "{\"id\":%ld,\"status\":\"skipped\",\"code\":0}\n", c.id);
-            else if (c.bin) { run_case(&c, of, timeout_ms); fails = last_ok ? 0 : fails + 1; }
+            if (c.bin && maxfail && (fails >= maxfail || total_fails >= 3 * maxfail)) fprintf(of, "{\"id\":%ld,\"status\":\"skipped\",\"code\":0}\n", c.id);
+            else if (c.bin) { run_case(&c, of, timeout_ms); fails = last_ok ? 0 : fails + 1; total_fails += !last_ok; }
             free(c.bin); free(c.in); free(c.wait);
             for (int i = 0; i < c.argc; i++) free(c.argv[i]);
             for (int i = 0; i < c.envc; i++) free(c.envp[i]);
